@@ -58,14 +58,26 @@ def project_registry(label):
     return {"table": table, "count": int(re.search(r'/\\ count = (-?\d+)', label).group(1)),
             "rs": {k: v for k, v in rs.items() if v != "none"}, "nclose": parse_rec(nc.group(1)) if nc else {}}
 
+# ---- Construct.tla: scalar variables, printed one per conjunct
+def project_construct(label):
+    def v(name):
+        m = re.search(r'/\\ ' + name + r' = ("?)([^ "/]*)\1', label)
+        return m.group(2) if m else ""
+    return {"pc": v("pc"), "rs": v("rs"), "table": v("table") == "TRUE", "count": int(v("count") or 0), "conn": int(v("conn") or 0),
+            "nclose": int(v("nclose") or 0), "trs": v("trs")}
+
 def main():
     global project
     dot, out = sys.argv[1], sys.argv[2]
     maxlen = int(sys.argv[3]) if len(sys.argv) > 3 else 45
     cap = int(sys.argv[4]) if len(sys.argv) > 4 else 0
     registry = len(sys.argv) > 5 and sys.argv[5] == "registry"
+    construct = len(sys.argv) > 5 and sys.argv[5] == "construct"
     if registry:
         project = project_registry
+    if construct:
+        project = project_construct
+        registry = True          # (same label syntax: hist is one conjunct among others, nothing is skipped)
     node_re = re.compile(r'^(-?\d+) \[label="((?:[^"\\]|\\.)*)"')
     edge_re = re.compile(r'^(-?\d+) -> (-?\d+) \[label=')
     act, proj, succ, init = {}, {}, collections.defaultdict(list), None
